@@ -21,6 +21,8 @@ DIMS = {
     "empty_middle": [False, True],
     # seven colour glyphs, the last two sharing a shape: an OT-SVG input then holds a document for glyph ids 7..8
     "many": [False, True],
+    # a line gap in the input font (hhea / OS/2): the em box the pictures are scaled to is ascender - descender, not the line height
+    "linegap": [0, 300],
 }
 K = {"quick": 1, "thorough": 2}
 FG = (0.2, 0.9, 0.4, 1.0)
@@ -33,7 +35,7 @@ def relevant(dev):
         return False
     if "colr_version" in dev and "svg" not in kind:
         return False
-    if "many" in dev and third:
+    if ("many" in dev or "linegap" in dev) and third:
         return False
     if "empty_middle" in dev and third:
         return False
@@ -104,7 +106,7 @@ table GDEF { GlyphClassDef [A B L T], , [mark], ; } GDEF;""")
     return b.getvalue()
 
 
-def nano_font(kind, solid_only=False, empty_middle=False, many=False):
+def nano_font(kind, solid_only=False, empty_middle=False, many=False, linegap=0):
     from vmc.core import lattice as L
     from vmc.drive import inproc
     from vmc.gen import scenes
@@ -136,6 +138,7 @@ def nano_font(kind, solid_only=False, empty_middle=False, many=False):
         glyphs.append(Glyph((0xE006,), (0, 0, 100, 100), [Shape(place(OUT["ell"], aff.tr(40, 30)), Solid("#663301"), label="ell-copy"),
                                                            Shape("M4,56 L30,52 L36,80 L18,94 L6,78 Z", Solid("#222222"), label="p2")]))
     over["color_format"] = fmt
+    over["linegap"] = linegap
     raw = fmt.startswith("untouched")
     cfg, font, data = inproc.build_direct([(g.cps, sc.raw_svg(g) if raw else g.svg()) for g in glyphs], over)
     return data
@@ -217,7 +220,7 @@ def execute(dev):
     inproc.init()
     dev = {k: v for k, v in dev.items() if k != "_"}
     a = lattice.full(DIMS, dev)
-    data = third_party(a) if a["kind"].startswith("third") else nano_font(a["kind"], solid_only="svg" in a["kind"] and a["colr_version"] == 0, empty_middle=a["empty_middle"], many=a["many"])
+    data = third_party(a) if a["kind"].startswith("third") else nano_font(a["kind"], solid_only="svg" in a["kind"] and a["colr_version"] == 0, empty_middle=a["empty_middle"], many=a["many"], linegap=a["linegap"])
     w = cli.mkscratch("c12")
     try:
         r, out = run_mc(w, data, a, True)
@@ -354,7 +357,8 @@ def run(report, tier, only=None):
                  {"kind": "nano_colr1", "bitmaps": True}, {"kind": "nano_picosvg", "bitmaps": True}, {"kind": "nano_colr1", "keep": False},
                  {"kind": "nano_picosvg", "bitmaps": True, "empty_middle": True}, {"kind": "nano_colr1", "bitmaps": True, "empty_middle": True},
                  {"bitmaps": True, "palettes": 2}, {"kind": "nano_untouchedsvg", "empty_middle": True},
-                 {"kind": "nano_picosvg", "many": True}, {"kind": "nano_colr1", "many": True}, {"kind": "nano_untouchedsvg", "many": True}]
+                 {"kind": "nano_picosvg", "many": True}, {"kind": "nano_colr1", "many": True}, {"kind": "nano_untouchedsvg", "many": True},
+                 {"kind": "nano_picosvg", "linegap": 300}, {"kind": "nano_untouchedsvg", "linegap": 300}, {"kind": "nano_colr1", "linegap": 300, "bitmaps": True}]
         lattice.explore(report, DIMS, k, execute, relevant=relevant, timeout=1200, extra_states=extra)
     finally:
         pool.nproc = old
